@@ -1530,3 +1530,40 @@ Proof.
   replace (j + k <? j) with false by (symmetry; apply Nat.ltb_ge; lia).
   replace (j + k - j) with k by lia. rewrite Hfl, Hold. apply nth_upd_same. lia.
 Qed.
+
+(* ================================================================== avoid_restarts *)
+Section AvoidRestartsProofs.
+Variable T : Type.
+Variable N : ConvCtrl.num T.
+
+(* whatever the contraction-factor estimate says: a step that, at an iteration >= maxiter, comes out of
+   determine_restart neither restarted nor told to continue has (e_tol <= err) = false.  This is what the
+   `>=` in `S.status.iter >= S.params.maxiter` buys: the rule is re-applied after every extra sweep. *)
+Theorem avoid_restarts_accept c avoid iter maxiter more order e rho :
+  maxiter <= iter ->
+  adapt_decide N c avoid iter maxiter more order e rho false false = (false, false) ->
+  nleb N (c_e_tol c) e = false.
+Proof.
+  intros Hi. unfold adapt_decide.
+  replace (maxiter <=? iter) with true by (symmetry; apply Nat.leb_le; exact Hi).
+  destruct (nleb N (c_e_tol c) e); [|reflexivity].
+  destruct avoid; [|discriminate].
+  destruct (nltb N (n1 N) rho); [discriminate|].
+  destruct (2 * maxiter <? iter + more); [discriminate|].
+  destruct (order <? iter + more); discriminate.
+Qed.
+
+(* the step is finished by CheckConvergence only if it was not told to continue *)
+Theorem step_done_not_continue iter maxiter force_done fc :
+  step_done iter maxiter force_done fc = true -> fc = false.
+Proof. unfold step_done. destruct fc; [rewrite andb_false_r; discriminate | reflexivity]. Qed.
+
+(* before maxiter the rule does nothing *)
+Theorem adapt_decide_early c avoid iter maxiter more order e rho r fc :
+  iter < maxiter -> adapt_decide N c avoid iter maxiter more order e rho r fc = (r, fc).
+Proof.
+  intros Hi. unfold adapt_decide.
+  replace (maxiter <=? iter) with false by (symmetry; apply Nat.leb_gt; exact Hi). reflexivity.
+Qed.
+
+End AvoidRestartsProofs.
